@@ -446,10 +446,18 @@ def fit_cases(ctx, rnd, variant, seed, ndata=400, nphsp=1500):
             for key in f0:
                 grads.setdefault(key, []).append((fp[key] - fm[key]) / (2 * h))
         vm.set_all(theta)
-        for method in ("old", "new"):
+        for method in ("old", "new", "new_reintegrated"):
             with quiet():
-                fe = config.cal_fitfractions(res.params, mcdata=phsp, method=method)
-                frac, ferr = fe
+                if method == "new_reintegrated":
+                    # the accumulating FitFractions object is integrated a second time (second sample / new parameters in real use):
+                    # values AND errors must again be those of the sample just integrated
+                    fe = config.cal_fitfractions(res.params, mcdata=phsp, method="new")
+                    with config.get_amplitude().temp_params(res.params):
+                        fe.integral(phsp, batch=max(1, nphsp // 3))
+                    frac, ferr = fe.get_frac()
+                else:
+                    fe = config.cal_fitfractions(res.params, mcdata=phsp, method=method)
+                    frac, ferr = fe
             for key in frac:
                 hk = key if key in f0 else (key[1], key[0]) if isinstance(key, tuple) else key
                 if hk not in f0:
